@@ -7,10 +7,20 @@ cubic basis is the cardinal cubic B-spline (polynomial identities); the uniform 
 consistent with the coefficient window at the right end point; periodic wrap of unit coefficient
 vectors; evaluators do not write into the coefficient array.  The Cox-de Boor recursion and the
 binary span search are data-dependent loops and are not decided.
+
+Entry points (Spline1D/Spline2D.eval, eval_vector) are read after path specialisation
+(`Specialiser`: locals that only rename an attribute are replaced by it, calls of other methods of
+the class are replaced by their bodies, guard clauses and if/else read alike; nothing is executed).
+A hand-over to the kernels is recognised as `if T: cu_f(..) else: nu_f(..)`, as the conditional
+expression of two calls, or as `(cu_f if T else nu_f)(..)`.  Each rule is three-valued: HOLDS for the
+recognised mechanism, VIOLATED only for a recognised wrong form (other family's routine, another
+role's argument, exchanged or folded evaluation points, a test on another attribute), UNDECIDED
+otherwise.  The Specialiser is shared with C08 and C09.
 """
 from __future__ import annotations
 
 import ast
+import re
 
 import sympy as sp
 from sympy import Symbol, Function, Integer, Rational
@@ -70,6 +80,7 @@ def h_cu_basis_der(ex, call):
 
 HANDLERS = {"nu_find_span": h_nu_find_span, "cu_find_span": h_cu_find_span, "nu_basis_funs": h_nu_basis(0),
             "nu_basis_funs_1st_der": h_nu_basis(1), "cu_basis_funs": h_cu_basis, "cu_basis_funs_1st_der": h_cu_basis_der}
+SPLINE_HANDLERS = HANDLERS
 
 
 def basis_spec(fam, dim, args, x, der):
@@ -138,8 +149,8 @@ def check_evaluator(chk, rel, name, rule="E4-evaluator"):
                 inner = c(s1 - w1 + a_, s2 - w2) * B2(0) + sp.Sum(c(s1 - w1 + a_, s2 - w2 + b_) * B2(b_), (b_, 1, n2))
                 want = sp.Sum(inner * B1(a_), (a_, 0, n1))
             ok = sum_equal(got, want)
-        except Undecided as e:
-            chk.ob(rule, fn, label, None, f"comparison not decidable: {e}", file=rel, func=name)
+        except (Undecided, KeyError, AttributeError) as e:
+            chk.ob(rule, fn, label, None, f"comparison not decidable: {type(e).__name__}: {e} (parameter or output renamed?)", file=rel, func=name)
             continue
         chk.ob(rule, fn, label, ok,
                "value = sum over the degree+1 (x degree+1) coefficients in the window [span-degree, span] of coefficient x basis "
@@ -181,9 +192,15 @@ def cardinal_cubic(chk):
     o, dx = sp.symbols("offset dx", real=True)
     fn = mod.func("cu_basis_funs")
     args = make_args(fn, overrides={"offset": o})
-    ex = SymExec(fn, args, calls={})
-    ex.run()
-    vals = [ex.env["values"].read([Integer(k)]) for k in range(4)]
+    try:
+        ex = SymExec(fn, args, calls={})
+        ex.run()
+        vals = [sp.sympify(ex.env["values"].read([Integer(k)])) for k in range(4)]
+        if any(not v.is_polynomial(o) or v.free_symbols - {o} for v in vals):
+            raise Undecided(f"values are not polynomials of the offset: {vals}")
+    except (Undecided, KeyError, AttributeError, TypeError) as e:
+        chk.ob("F8-cardinal-cubic", fn, "cu_basis_funs", None, f"basis values not extractable: {type(e).__name__}: {e}", file=U.CU, func="cu_basis_funs")
+        return
     want = [(1 - o) ** 3 / 6, (3 * o ** 3 - 6 * o ** 2 + 4) / 6, (-3 * o ** 3 + 3 * o ** 2 + 3 * o + 1) / 6, o ** 3 / 6]
     for k in range(4):
         ok = sp.expand(vals[k] - want[k]) == 0
@@ -203,17 +220,25 @@ def cardinal_cubic(chk):
                f"Bernstein coefficients {bern} are not all non-negative", file=U.CU, func="cu_basis_funs")
     fd = mod.func("cu_basis_funs_1st_der")
     a2 = make_args(fd, overrides={"offset": o, "dx": dx})
-    ex2 = SymExec(fd, a2, calls={})
-    ex2.run()
-    ders = [ex2.env["ders"].read([Integer(k)]) for k in range(4)]
-    for k in range(4):
+    try:
+        ex2 = SymExec(fd, a2, calls={})
+        ex2.run()
+        ders = [sp.sympify(ex2.env["ders"].read([Integer(k)])) for k in range(4)]
+        if any(v.free_symbols - {o, dx} for v in ders):
+            raise Undecided(f"derivatives depend on more than offset and dx: {ders}")
+    except (Undecided, KeyError, AttributeError, TypeError) as e:
+        chk.ob("F8-derivative", fd, "cu_basis_funs_1st_der", None, f"derivative values not extractable: {type(e).__name__}: {e}", file=U.CU,
+               func="cu_basis_funs_1st_der")
+        ders = None
+    for k in range(4) if ders is not None else ():
         ok = sp.expand(ders[k] - sp.diff(vals[k], o) / dx) == 0
         chk.ob("F8-derivative", fd, f"ders[{k}] == d/dx values[{k}]", ok, "derivative of the value piece with respect to x = xmin + (cell+offset) dx"
                if ok else f"ders[{k}] = {sp.expand(ders[k])} but d values[{k}]/dx = {sp.expand(sp.diff(vals[k], o) / dx)}", file=U.CU,
                func="cu_basis_funs_1st_der")
-    tot = sp.expand(sum(ders))
-    chk.ob("F8-derivative", fd, "sum(ders) == 0", tot == 0, "the derivatives sum to 0 identically" if tot == 0 else f"sum is {tot}",
-           file=U.CU, func="cu_basis_funs_1st_der")
+    if ders is not None:
+        tot = sp.expand(sum(ders))
+        chk.ob("F8-derivative", fd, "sum(ders) == 0", tot == 0, "the derivatives sum to 0 identically" if tot == 0 else f"sum is {tot}",
+               file=U.CU, func="cu_basis_funs_1st_der")
     # span search: (x - xmin)/dx, integer part, right end point mapped to the last cell with offset 1
     fs = mod.func("cu_find_span")
     ok, whyspan = None, "span search not extractable"
@@ -258,6 +283,733 @@ def cardinal_cubic(chk):
            "is used with offset 1 (span = ncells+2)" if ok else (whyspan or "uniform span search changed"), file=U.CU, func="cu_find_span")
 
 
+# --------------------------------------------------------------------------
+# path specialisation: a method seen as straight-line code
+# --------------------------------------------------------------------------
+def clone(node):
+    """structural copy of a syntax tree (fields and positions only: the parent links of the source model are not followed)"""
+    if isinstance(node, list):
+        return [clone(x) for x in node]
+    if not isinstance(node, ast.AST):
+        return node
+    new = type(node)()
+    for f in node._fields:
+        if hasattr(node, f):
+            setattr(new, f, clone(getattr(node, f)))
+    for a in ("lineno", "col_offset", "end_lineno", "end_col_offset"):
+        if hasattr(node, a):
+            setattr(new, a, getattr(node, a))
+    return new
+
+
+def _chain(e):
+    """Name or attribute chain on a Name (`self._basis.knots`): a reference to an object, no computation"""
+    while isinstance(e, ast.Attribute):
+        e = e.value
+    return isinstance(e, ast.Name)
+
+
+def _simple_actual(e):
+    return _chain(e) or isinstance(e, ast.Constant)
+
+
+class _Sub(ast.NodeTransformer):
+    """replace loads of names by (copies of) expressions"""
+
+    def __init__(self, env):
+        self.env = env
+
+    def visit_Name(self, node):
+        if isinstance(node.ctx, ast.Load) and node.id in self.env:
+            new = clone(self.env[node.id])
+            for x in ast.walk(new):
+                ast.copy_location(x, node)
+            return new
+        return node
+
+
+class _Ren(ast.NodeTransformer):
+    def __init__(self, m):
+        self.m = m
+
+    def visit_Name(self, node):
+        if node.id in self.m:
+            node.id = self.m[node.id]
+        return node
+
+
+def _stores(fn):
+    """name -> number of binding sites in the function (assignments, loop targets, with/except names, parameters excluded)"""
+    cnt = {}
+    for n in ast.walk(fn):
+        if isinstance(n, ast.Name) and isinstance(n.ctx, (ast.Store, ast.Del)):
+            cnt[n.id] = cnt.get(n.id, 0) + 1
+    return cnt
+
+
+def _attr_stores(fn):
+    """source of every attribute reference the function assigns to (`self._x = ...`)"""
+    return {src(n) for n in ast.walk(fn) if isinstance(n, ast.Attribute) and isinstance(n.ctx, (ast.Store, ast.Del))}
+
+
+def _terminates(block):
+    if not block:
+        return False
+    last = block[-1]
+    if isinstance(last, (ast.Return, ast.Raise)):
+        return True
+    if isinstance(last, ast.If):
+        return _terminates(last.body) and _terminates(last.orelse)
+    return False
+
+
+def _is_docstring(st):
+    return isinstance(st, ast.Expr) and isinstance(st.value, ast.Constant) and isinstance(st.value.value, str)
+
+
+class Specialiser:
+    """Static specialisation of a method of a class (no execution: the syntax tree is rewritten).
+
+    * locals bound once to an object reference (`basis = self._basis`, `n1, n2 = b1.nbasis, b2.nbasis`, a local that an
+      `assert <name> is <reference>` identifies with a reference) are replaced by that reference;
+    * calls of other methods of the same class through `self.` / `cls.` / the class name are replaced by the callee's body
+      (parameters bound to the actual arguments, the callee's locals renamed apart);
+    * a branch whose test is decided by `facts` (canonical source of a boolean expression -> truth value, e.g.
+      {"self._basis.periodic": True}) is replaced by the arm taken; statements after a `return` are dropped;
+    * `if c: ...return`  followed by more statements becomes `if c: ... else: <the rest>` (guard clauses and if/else read alike).
+
+    The result is a statement list with the behaviour of the method on the runs that satisfy `facts`."""
+
+    def __init__(self, mod, cls_name, facts=None, keep=(), max_depth=3):
+        self.mod, self.cls_name = mod, cls_name
+        self.facts = {self._canon_text(k): v for k, v in (facts or {}).items()}
+        self.keep = set(keep)
+        self.max_depth = max_depth
+        self.k = 0
+        self.inlined = []
+        self.opaque = []
+        try:
+            self.methods = mod.methods(cls_name)
+        except AnalysisError:
+            self.methods = {}
+
+    @staticmethod
+    def _canon_text(t):
+        return ast.unparse(ast.parse(t, mode="eval").body)
+
+    # -- truth of a test under the facts
+    def truth(self, test):
+        if isinstance(test, ast.Constant):
+            return bool(test.value)
+        if isinstance(test, ast.UnaryOp) and isinstance(test.op, ast.Not):
+            v = self.truth(test.operand)
+            return None if v is None else (not v)
+        if isinstance(test, ast.BoolOp):
+            vs = [self.truth(v) for v in test.values]
+            if isinstance(test.op, ast.And):
+                if any(v is False for v in vs):
+                    return False
+                return True if all(v is True for v in vs) else None
+            if any(v is True for v in vs):
+                return True
+            return False if all(v is False for v in vs) else None
+        if isinstance(test, ast.Compare) and len(test.ops) == 1 and isinstance(test.comparators[0], ast.Constant) and \
+                isinstance(test.comparators[0].value, bool) and isinstance(test.ops[0], (ast.Is, ast.Eq, ast.IsNot, ast.NotEq)):
+            v = self.truth(test.left)
+            if v is None:
+                return None
+            same = v == test.comparators[0].value
+            return same if isinstance(test.ops[0], (ast.Is, ast.Eq)) else (not same)
+        return self.facts.get(src(test))
+
+    # -- entry
+    def run(self, name):
+        fn = self.methods.get(name)
+        if fn is None:
+            raise AnalysisError(f"anchor vanished: {self.mod.rel}:{self.cls_name}.{name}")
+        return self._function(fn, {}, [name])
+
+    def _function(self, fn, env, stack):
+        fn = clone(fn)
+        body = [st for st in fn.body if not _is_docstring(st)]
+        cnt = _stores(fn)
+        params = {a.arg for a in fn.args.args + fn.args.kwonlyargs + fn.args.posonlyargs}
+        ctx = {"cnt": cnt, "params": params, "fn": fn, "stack": stack, "loaded": set(), "attr_stores": _attr_stores(fn)}
+        return self._block(body, dict(env), ctx)
+
+    # -- aliases
+    def _alias_pairs(self, st, env, ctx):
+        """(name, reference) pairs defined by this statement, or None"""
+        def ok_name(t):
+            return isinstance(t, ast.Name) and ctx["cnt"].get(t.id, 0) == 1 and t.id not in ctx["params"] and t.id not in ctx["loaded"]
+
+        def ok_ref(v):
+            if not _chain(v):
+                return False
+            root = v
+            while isinstance(root, ast.Attribute):
+                if src(root) in ctx["attr_stores"]:
+                    return False          # the function rebinds this attribute: the local keeps the OLD object
+                root = root.value
+            # the root is self, a parameter that is never rebound, or was an alias (already substituted)
+            return root.id in ("self", "cls") or (root.id in ctx["params"] and ctx["cnt"].get(root.id, 0) == 0)
+        if isinstance(st, ast.Assign) and len(st.targets) == 1:
+            t, v = st.targets[0], st.value
+            if ok_name(t) and ok_ref(v):
+                return [(t.id, v)]
+            if isinstance(t, ast.Tuple) and isinstance(v, ast.Tuple) and len(t.elts) == len(v.elts) and \
+                    all(ok_name(a) and ok_ref(b) for a, b in zip(t.elts, v.elts)):
+                return [(a.id, b) for a, b in zip(t.elts, v.elts)]
+        return None
+
+    def _block(self, stmts, env, ctx):
+        out = []
+        for idx, st0 in enumerate(stmts):
+            if isinstance(st0, ast.Assert) and isinstance(st0.test, ast.Compare) and len(st0.test.ops) == 1 and \
+                    isinstance(st0.test.ops[0], ast.Is) and isinstance(st0.test.left, ast.Name) and \
+                    ctx["cnt"].get(st0.test.left.id, 0) == 1 and st0.test.left.id not in env and _chain(st0.test.comparators[0]):
+                # execution continues only when the local IS that object: from here on it is that reference
+                ref = _Sub(env).visit(clone(st0.test.comparators[0]))
+                out.append(st0)
+                env[st0.test.left.id] = ref
+                continue
+            pairs = None
+            if isinstance(st0, ast.Assign):
+                st_v = clone(st0)
+                st_v.value = _Sub(env).visit(st_v.value)
+                pairs = self._alias_pairs(st_v, env, ctx)
+            if pairs:
+                for n_, v_ in pairs:
+                    env[n_] = v_
+                continue
+            for n_ in own_exprs(st0):
+                if isinstance(n_, ast.Name) and isinstance(n_.ctx, ast.Load) and n_.id not in env:
+                    ctx["loaded"].add(n_.id)
+            if isinstance(st0, ast.If):
+                test = _Sub(env).visit(clone(st0.test))
+                v = self.truth(test)
+                if v is not None:
+                    arm = self._block(st0.body if v else st0.orelse, env, ctx)
+                    out += arm
+                    if _terminates(arm):
+                        return out
+                    continue
+                body = self._block(st0.body, dict(env), ctx)
+                orelse = self._block(st0.orelse, dict(env), ctx)
+                rest = stmts[idx + 1:]
+                if rest and _terminates(body) and not _terminates(orelse):
+                    orelse = orelse + self._block(rest, dict(env), ctx)
+                    out.append(ast.copy_location(ast.If(test=test, body=body or [ast.Pass()], orelse=orelse), st0))
+                    return out
+                if rest and _terminates(orelse) and not _terminates(body):
+                    body = body + self._block(rest, dict(env), ctx)
+                    out.append(ast.copy_location(ast.If(test=test, body=body, orelse=orelse), st0))
+                    return out
+                out.append(ast.copy_location(ast.If(test=test, body=body or [ast.Pass()], orelse=orelse), st0))
+                if _terminates(out):
+                    return out
+                continue
+            if isinstance(st0, (ast.For, ast.While, ast.With, ast.Try)):
+                st = clone(st0)
+                for f in ("iter", "test", "target"):
+                    if hasattr(st, f) and f != "target":
+                        setattr(st, f, _Sub(env).visit(clone(getattr(st, f))))
+                if isinstance(st, ast.With):
+                    st.items = [_Sub(env).visit(clone(i)) for i in st.items]
+                for f in ("body", "orelse", "finalbody"):
+                    b = getattr(st, f, None)
+                    if b:
+                        setattr(st, f, self._block(b, dict(env), ctx) or [ast.Pass()])
+                for h in getattr(st, "handlers", []) or []:
+                    h.body = self._block(h.body, dict(env), ctx) or [ast.Pass()]
+                out.append(st)
+                continue
+            st = _Sub(env).visit(clone(st0))
+            got = self._inline(st, ctx)
+            if got is not None:
+                out += got
+                if _terminates(got):
+                    return out
+                continue
+            out.append(st)
+            if isinstance(st, (ast.Return, ast.Raise)):
+                return out
+        return out
+
+    # -- inlining of own methods
+    def _own_call(self, call):
+        f = call.func
+        if isinstance(f, ast.Attribute) and isinstance(f.value, ast.Name) and f.value.id in ("self", "cls", self.cls_name) \
+                and f.attr in self.methods and f.attr not in self.keep:
+            return self.methods[f.attr]
+        return None
+
+    def _inline(self, st, ctx):
+        if isinstance(st, ast.Expr) and isinstance(st.value, ast.Call):
+            call, mode = st.value, "expr"
+        elif isinstance(st, ast.Assign) and isinstance(st.value, ast.Call) and len(st.targets) == 1:
+            call, mode = st.value, "assign"
+        elif isinstance(st, ast.Return) and isinstance(st.value, ast.Call):
+            call, mode = st.value, "return"
+        else:
+            return None
+        callee = self._own_call(call)
+        if callee is None:
+            return None
+        why = None
+        decs = [src(d) for d in callee.decorator_list]
+        if any(d not in ("staticmethod", "classmethod") for d in decs):
+            why = f"decorated {decs}"
+        if callee.name in ctx["stack"] or len(ctx["stack"]) > self.max_depth:
+            why = "recursion / depth"
+        a = callee.args
+        if a.vararg or a.kwarg or a.posonlyargs or any(isinstance(x, ast.Starred) for x in call.args) or any(k.arg is None for k in call.keywords):
+            why = "variadic"
+        for n_ in ast.walk(callee):
+            if isinstance(n_, (ast.Yield, ast.YieldFrom, ast.Global, ast.Nonlocal)) or \
+                    (isinstance(n_, (ast.FunctionDef, ast.AsyncFunctionDef, ast.ClassDef)) and n_ is not callee):
+                why = "generator / nested scope"
+        if why:
+            self.opaque.append((callee.name, why))
+            return None
+        formals = [x.arg for x in a.args]
+        if "staticmethod" not in decs:
+            formals = formals[1:]
+        nd = len(a.defaults)
+        defaults = {x.arg: d for x, d in zip(a.args[len(a.args) - nd:], a.defaults)}
+        for x, d in zip(a.kwonlyargs, a.kw_defaults):
+            formals.append(x.arg)
+            if d is not None:
+                defaults[x.arg] = d
+        bound = {}
+        if len(call.args) > len(formals):
+            self.opaque.append((callee.name, "arity"))
+            return None
+        for f_, v_ in zip(formals, call.args):
+            bound[f_] = v_
+        for k_ in call.keywords:
+            if k_.arg not in formals or k_.arg in bound:
+                self.opaque.append((callee.name, "keywords"))
+                return None
+            bound[k_.arg] = k_.value
+        for f_ in formals:
+            if f_ not in bound:
+                if f_ not in defaults:
+                    self.opaque.append((callee.name, "missing argument"))
+                    return None
+                bound[f_] = defaults[f_]
+        callee = clone(callee)
+        cnt = _stores(callee)
+        self.k += 1
+        caller_names = {n_.id for n_ in ast.walk(ctx["fn"]) if isinstance(n_, ast.Name)} | ctx["params"] | set(getattr(self, "_spliced", ()))
+        ren = {}
+        for n_ in list(cnt) + formals:
+            if n_ in caller_names or n_ in ren:
+                ren[n_] = f"{n_}__{self.k}"
+        pre, env = [], {}
+        for f_ in formals:
+            v_ = bound[f_]
+            if cnt.get(f_, 0) == 0 and _simple_actual(v_):
+                env[f_] = v_
+            else:
+                tgt = ren.get(f_, f_)
+                pre.append(ast.copy_location(ast.Assign(targets=[ast.Name(id=tgt, ctx=ast.Store())], value=v_, lineno=st.lineno), st))
+        # rename the callee's own locals apart (parameters substituted by their actuals keep their name in env)
+        body = [st_ for st_ in callee.body if not _is_docstring(st_)]
+        if ren:
+            keep_env = {k_: v_ for k_, v_ in env.items()}
+            body = [_Ren({k_: v_ for k_, v_ in ren.items() if k_ not in keep_env}).visit(st_) for st_ in body]
+        self._spliced = set(getattr(self, "_spliced", ())) | {ren.get(n_, n_) for n_ in cnt}
+        sub_cnt = _stores(ast.Module(body=body, type_ignores=[]))
+        sub_ctx = {"cnt": sub_cnt, "params": {ren.get(f_, f_) for f_ in formals if f_ not in env} | set(env), "fn": ctx["fn"],
+                   "stack": ctx["stack"] + [callee.name], "loaded": set(), "attr_stores": _attr_stores(callee) | ctx["attr_stores"]}
+        # parameters passed by reference are never rebound in the callee (checked above): they count as stable roots
+        for f_ in env:
+            sub_ctx["cnt"][f_] = 0
+        flat = self._block(body, env, sub_ctx)
+        res = self._splice_returns(flat, st, mode)
+        if res is None:
+            self.opaque.append((callee.name, "return inside a loop or before the end"))
+            return None
+        self.inlined.append(callee.name)
+        for x in pre + res:
+            ast.fix_missing_locations(x)
+        return pre + res
+
+    def _splice_returns(self, flat, st, mode):
+        """returns at tail positions become the effect the call statement has on its caller; None when a return sits elsewhere"""
+        def tail(block):
+            if not block:
+                return self._result(None, st, mode)
+            last = block[-1]
+            head = block[:-1]
+            if any(isinstance(n_, ast.Return) for h in head for n_ in ast.walk(h)):
+                return None
+            if isinstance(last, ast.Return):
+                r = self._result(last.value, st, mode)
+                return head + r
+            if isinstance(last, ast.If):
+                b, o = tail(last.body), tail(last.orelse)
+                if b is None or o is None:
+                    return None
+                new = ast.copy_location(ast.If(test=last.test, body=b or [ast.Pass()], orelse=o), last)
+                return head + [new]
+            if any(isinstance(n_, ast.Return) for n_ in ast.walk(last)):
+                return None
+            if isinstance(last, ast.Raise):
+                return block
+            return block + self._result(None, st, mode)
+        return tail(flat)
+
+    def _result(self, value, st, mode):
+        if mode == "return":
+            return [ast.copy_location(ast.Return(value=value), st)]
+        if mode == "assign":
+            v = value if value is not None else ast.Constant(value=None)
+            return [ast.copy_location(ast.Assign(targets=clone(st.targets), value=v, lineno=st.lineno), st)]
+        if value is None or _simple_actual(value):
+            return []
+        return [ast.copy_location(ast.Expr(value=value), st)]
+
+
+def walk_guarded(stmts, guards=()):
+    """(statement, guards) for every statement of a (specialised) statement list, guards = tuple of (test, polarity, if-node)"""
+    for st in stmts:
+        yield st, guards
+        if isinstance(st, ast.If):
+            yield from walk_guarded(st.body, guards + ((st.test, True, st),))
+            yield from walk_guarded(st.orelse, guards + ((st.test, False, st),))
+        else:
+            for f in ("body", "orelse", "finalbody"):
+                b = getattr(st, f, None)
+                if isinstance(b, list) and b and isinstance(b[0], ast.stmt):
+                    yield from walk_guarded(b, guards)
+            for h in getattr(st, "handlers", []) or []:
+                yield from walk_guarded(h.body, guards)
+
+
+def own_exprs(st):
+    """expression nodes of a statement, not those of nested statements"""
+    stack = [c for c in ast.iter_child_nodes(st) if not isinstance(c, ast.stmt)]
+    while stack:
+        n = stack.pop()
+        yield n
+        stack.extend(c for c in ast.iter_child_nodes(n) if not isinstance(c, ast.stmt))
+
+
+# --------------------------------------------------------------------------
+# dispatch between the two families, argument roles, evaluation points
+# --------------------------------------------------------------------------
+COERCIONS = ("np.asarray", "np.atleast_1d", "np.array", "float", "np.float64", "np.ascontiguousarray", "np.asanyarray")
+FOLDS = ("np.mod", "np.fmod", "np.remainder", "np.clip", "min", "max", "np.minimum", "np.maximum", "math.fmod")
+
+
+def _family(name):
+    for p in ("cu_", "nu_"):
+        if name.startswith(p):
+            return p, name[len(p):]
+    return None, name
+
+
+def _evaluator_name(e):
+    return isinstance(e, ast.Name) and _family(e.id)[0] is not None and "eval_spline" in e.id
+
+
+def _polarity(test):
+    """(positive test, swapped?)"""
+    sw = False
+    while isinstance(test, ast.UnaryOp) and isinstance(test.op, ast.Not):
+        test, sw = test.operand, not sw
+    return test, sw
+
+
+class PointFlow:
+    """which names hold the caller's evaluation points unchanged, and which hold something computed from them"""
+
+    def __init__(self, pts, smod):
+        self.same = set(pts)
+        self.derived = {}          # name -> (verdict, text)
+        self.smod = smod
+
+    def classify(self, e):
+        """'same' | 'other' (does not involve a point) | (False|None, diagnosis)"""
+        if isinstance(e, ast.Name):
+            if e.id in self.same:
+                return "same"
+            if e.id in self.derived:
+                return self.derived[e.id]
+            return "other"
+        if isinstance(e, ast.Call) and src(e.func) in COERCIONS and e.args:
+            c = self.classify(e.args[0])
+            return c
+        involved = [n.id for n in ast.walk(e) if isinstance(n, ast.Name) and (n.id in self.same or n.id in self.derived)]
+        if not involved:
+            return "other"
+        for n in ast.walk(e):
+            if isinstance(n, ast.Name) and n.id in self.derived and self.derived[n.id][0] is False:
+                return self.derived[n.id]
+        text = src(e)[:70]
+        folds = [n for n in ast.walk(e) if (isinstance(n, ast.BinOp) and isinstance(n.op, (ast.Mod, ast.FloorDiv))) or
+                 (isinstance(n, ast.Call) and src(n.func) in FOLDS)]
+        if folds:
+            return (False, f"`{text}` folds or clamps the evaluation point (`{src(folds[0])[:50]}`)")
+        if isinstance(e, ast.Call) and isinstance(e.func, ast.Attribute) and len(e.args) == 1 and not e.keywords and \
+                self.classify(e.args[0]) == "same":
+            # a method of the basis applied to the point: read what it returns
+            try:
+                m = self.smod.methods("BSplines").get(e.func.attr)
+            except AnalysisError:
+                m = None
+            if m is not None and len(m.args.args) == 2:
+                par = m.args.args[1].arg
+                rets = [r.value for r in ast.walk(m) if isinstance(r, ast.Return)]
+                if rets and all(isinstance(r, ast.Name) and r.id == par for r in rets) and _stores(m).get(par, 0) == 0:
+                    return "same"
+                inner = PointFlow([par], self.smod)
+                for r in rets:
+                    if r is None:
+                        continue
+                    c = inner.classify(r)
+                    if isinstance(c, tuple) and c[0] is False:
+                        return (False, f"`{text}`: BSplines.{m.name} returns `{src(r)[:60]}`, which folds the point into the base period")
+                return (None, f"`{text}`: BSplines.{m.name} computes something from the point")
+        return (None, f"`{text}` is computed from the evaluation point")
+
+    def assign(self, st):
+        """-> None, or (verdict, node, text) when a point is replaced"""
+        if isinstance(st, ast.AugAssign) and isinstance(st.target, ast.Name) and st.target.id in self.same:
+            self.same.discard(st.target.id)
+            self.derived[st.target.id] = (None, f"`{src(st)[:70]}` changes the evaluation point in place")
+            return self.derived[st.target.id]
+        if not isinstance(st, ast.Assign):
+            return None
+        hit = None
+        for t in st.targets:
+            pairs = [(t, st.value)]
+            if isinstance(t, ast.Tuple) and isinstance(st.value, ast.Tuple) and len(t.elts) == len(st.value.elts):
+                pairs = list(zip(t.elts, st.value.elts))
+            for a, v in pairs:
+                if not isinstance(a, ast.Name):
+                    continue
+                c = self.classify(v)
+                if c == "same":
+                    self.same.add(a.id)
+                    self.derived.pop(a.id, None)
+                elif c == "other":
+                    if a.id in self.same:
+                        self.same.discard(a.id)
+                        self.derived[a.id] = (None, f"`{src(st)[:70]}` replaces the evaluation point by something else")
+                        hit = hit or self.derived[a.id]
+                    else:
+                        self.derived.pop(a.id, None)
+                else:
+                    was_point = a.id in self.same
+                    self.same.discard(a.id)
+                    self.derived[a.id] = c
+                    if was_point:
+                        hit = hit or c
+        return hit
+
+
+MOVED_WHY = (": the value returned is that of the piecewise polynomial at another point (e.g. the right end of a periodic domain folded "
+             "onto the left end takes the left end's value and slope, which differ unless the coefficients happen to be wrapped)")
+
+
+def _roles(q):
+    """formal of the kernel -> canonical source of the actual expected from the entry point"""
+    if q.startswith("Spline1D"):
+        return {"knots": "self._basis.knots", "degree": "self._basis.degree", "coeffs": "self._coeffs"}
+    return {"kts1": "self._basis1.knots", "deg1": "self._basis1.degree", "kts2": "self._basis2.knots", "deg2": "self._basis2.degree",
+            "coeffs": "self._coeffs"}
+
+
+def check_site(chk, q, smod, site, sigs, flow, fn):
+    """one place where an entry point hands over to a kernel of one of the two families"""
+    node, test, fast, gen = site["node"], site["test"], site["fast"], site["general"]
+    label = f"{fast['name']}/{gen['name']}"
+    pa, sa = _family(fast["name"])
+    pb, sb = _family(gen["name"])
+    why = []
+    ok = True
+    if not (pa == "cu_" and pb == "nu_" and sa == sb):
+        ok = False
+        why.append(f"the arms call `{fast['name']}` / `{gen['name']}`: not the cu_/nu_ pair of one routine on the (fast, general) arms, so "
+                   "one family of bases is evaluated by a routine that reads its knot array differently")
+    if site.get("targets") and site["targets"][0] != site["targets"][1]:
+        ok = False
+        why.append(f"results go to different targets `{site['targets'][0]}` / `{site['targets'][1]}`")
+    la = [src(x) for x in fast["args"]], [(k.arg, src(k.value)) for k in fast["keywords"]]
+    lb = [src(x) for x in gen["args"]], [(k.arg, src(k.value)) for k in gen["keywords"]]
+    fa, fb = sigs.get(fast["name"]), sigs.get(gen["name"])
+    if la != lb:
+        # the same actuals may be written positionally on one arm and by keyword on the other: compare parameter by parameter
+        ba = bb = None
+        if fa is not None and fb is not None:
+            mk = lambda arm: ast.Call(func=ast.Name(id=arm["name"], ctx=ast.Load()), args=arm["args"], keywords=arm["keywords"])
+            ba, bb = agree.bind_call(mk(fast), [x[0] for x in fa]), agree.bind_call(mk(gen), [x[0] for x in fb])
+        if ba is None or bb is None:
+            ok = None if ok else ok
+            why.append("argument lists of the two arms are written differently and cannot be matched to the signatures")
+        else:
+            diff = [f_ for f_ in sorted(set(ba) | set(bb)) if src(ba.get(f_)) != src(bb.get(f_))]
+            if diff:
+                ok = False
+                why.append("the two families receive different arguments: " + ", ".join(
+                    f"`{f_}` <- `{src(ba.get(f_))}` / `{src(bb.get(f_))}`" for f_ in diff))
+    if fa is None or fb is None:
+        ok = None if ok else ok
+        why.append("signature of an evaluator not found")
+    elif [x[0] for x in fa] != [x[0] for x in fb] or [x[1] for x in fa] != [x[1] for x in fb]:
+        ok = False
+        why.append(f"signatures of the pair differ: {fa} vs {fb}")
+    chk.ob("E1-dispatch", node, label, ok, "matched cu_/nu_ pair, identical arguments, agreeing signatures" if ok else "; ".join(why),
+           file=U.SPLINES, func=q)
+    # the test
+    own = ("self._basis.cubic_uniform",) if q.startswith("Spline1D") else ("self._basis1.cubic_uniform", "self._basis2.cubic_uniform")
+    ts = src(test)
+    bad = None
+    if ts not in own:
+        if isinstance(test, ast.Constant):
+            bad = f"the family is chosen by the constant `{ts}`: one family is evaluated with the other family's routine"
+        elif isinstance(test, ast.Attribute) and src(test.value) in ("self._basis", "self._basis1", "self._basis2") and \
+                test.attr not in ("cubic_uniform", "_cubic_uniform_splines"):
+            bad = (f"the fast path is chosen by `{ts}`, not by the family of the spline's own basis: a basis that stores "
+                   "(xmin, xmax, dx, ncells) instead of a knot vector can reach the general routine, or the reverse")
+    chk.pat("E1-dispatch-test", node, ts, ts in own or ts.replace("._cubic_uniform_splines", ".cubic_uniform") in own,
+            "the fast path is taken iff the spline's own basis is cubic uniform", bad, file=U.SPLINES, func=q, nontrivial=False)
+    # argument roles (through the kernel's own signature: positional or keyword)
+    for arm in (fast, gen):
+        sig = sigs.get(arm["name"])
+        if sig is None:
+            chk.ob("E2-argument-role", node, f"{q}: {arm['name']}(...)", None, "signature of the evaluator not found", file=U.SPLINES, func=q)
+            continue
+        formals = [x[0] for x in sig]
+        fake = ast.Call(func=ast.Name(id=arm["name"], ctx=ast.Load()), args=arm["args"], keywords=arm["keywords"])
+        b = agree.bind_call(fake, formals)
+        if b is None:
+            chk.ob("E2-argument-role", node, f"{q}: {arm['name']}(...)", False, f"the argument list does not fit the signature {formals}: "
+                   "the call raises", file=U.SPLINES, func=q)
+            continue
+        roles = _roles(q)
+        inv = {v: k for k, v in roles.items()}
+        wrong, unknown = [], []
+        for f_, want in roles.items():
+            if f_ not in b:
+                wrong.append(f"parameter `{f_}` receives nothing")
+                continue
+            got = src(b[f_])
+            # private spellings of the same attribute
+            got = re.sub(r"\._(knots|degree)$", r".\1", got)
+            got = "self._coeffs" if got == "self.coeffs" else got
+            if got == want:
+                continue
+            m_ = re.fullmatch(r"self\._basis(\d?)\.(\w+)", got)
+            if got in inv:
+                wrong.append(f"parameter `{f_}` receives `{got}`, which is the `{inv[got]}` of this spline")
+            elif m_ and m_.group(2) in ("knots", "degree", "ncells", "nbasis", "breaks", "greville", "periodic", "cubic_uniform", "integrals"):
+                wrong.append(f"parameter `{f_}` receives `{got}` instead of `{want}`")
+            else:
+                unknown.append(f"`{f_}` <- `{got}`")
+        chk.pat("E2-argument-role", node, f"{q}: knots/degree/coeffs -> {arm['name']}", not wrong and not unknown,
+                "knots, degree and coefficients of this spline, each dimension in its own place",
+                ("; ".join(wrong) + ": the spline is evaluated with another dimension's knots/degree or another array") if wrong else None,
+                file=U.SPLINES, func=q)
+        # evaluation points and derivative orders keep their places
+        entry = [a.arg for a in fn.args.args[1:]]
+        pts = [p for p in entry if p in ("x", "x1", "x2")]
+        ders = [p for p in entry if p.startswith("der")]
+        kp = [f_ for f_ in formals if f_ in ("x", "y", "X", "Y")][:len(pts)]
+        kd = [f_ for f_ in formals if f_.startswith("der")]
+        verdict, msg = True, "the kernel receives the caller's points, in order"
+        for want, f_ in zip(pts, kp):
+            a = b.get(f_)
+            if a is None:
+                verdict, msg = False, f"point parameter `{f_}` receives nothing"
+                break
+            c = flow.classify(a)
+            if c == "same":
+                if isinstance(a, ast.Name) and a.id in pts and a.id != want:
+                    verdict, msg = False, f"point parameter `{f_}` receives `{a.id}` instead of `{want}`: the two coordinates are exchanged"
+                    break
+                continue
+            if c == "other":
+                verdict, msg = None, f"point parameter `{f_}` receives `{src(a)[:50]}`, which is not computed from the caller's point"
+            else:
+                verdict, msg = c[0], c[1] + MOVED_WHY
+            break
+        chk.ob("E2-evaluation-point", node, f"{q}: points {pts} -> {arm['name']}", verdict, msg, file=U.SPLINES, func=q)
+        okd, msgd = True, "derivative orders keep their dimension"
+        for want, f_ in zip(ders, kd):
+            a = b.get(f_)
+            if a is None:
+                continue
+            if isinstance(a, ast.Name) and a.id == want:
+                continue
+            if isinstance(a, ast.Name) and a.id in ders:
+                okd, msgd = False, f"`{f_}` receives `{a.id}`: the derivative is taken along the other dimension"
+            else:
+                okd, msgd = None, f"`{f_}` receives `{src(a)[:40]}`"
+            break
+        chk.ob("E2-argument-role", node, f"{q}: derivative orders -> {arm['name']}", okd, msgd, file=U.SPLINES, func=q, nontrivial=False)
+
+
+def find_sites(body):
+    """places of a specialised entry point where a kernel is called:
+    -> (sites, loose) ; loose = evaluator calls that no family test selects"""
+    sites, loose, seen = [], [], set()
+    by_if = {}
+    def exprs_guarded(n, guards):
+        """expression nodes of a statement with the conditional expressions they sit under"""
+        for c in ast.iter_child_nodes(n):
+            if isinstance(c, ast.stmt):
+                continue
+            yield c, guards
+            if isinstance(c, ast.IfExp):
+                yield c.test, guards
+                yield from exprs_guarded(c.test, guards)
+                for arm, pol in ((c.body, True), (c.orelse, False)):
+                    yield arm, guards + ((c.test, pol, c),)
+                    yield from exprs_guarded(arm, guards + ((c.test, pol, c),))
+            else:
+                yield from exprs_guarded(c, guards)
+
+    for st, guards0 in walk_guarded(body):
+        for e, guards in exprs_guarded(st, guards0):
+            if not isinstance(e, ast.Call):
+                continue
+            if isinstance(e.func, ast.IfExp) and (_evaluator_name(e.func.body) or _evaluator_name(e.func.orelse)):
+                t, sw = _polarity(e.func.test)
+                a, b = (e.func.body, e.func.orelse) if not sw else (e.func.orelse, e.func.body)
+                if not (isinstance(a, ast.Name) and isinstance(b, ast.Name)):
+                    loose.append((e, "one arm of the conditional expression is not a routine name"))
+                    continue
+                arm = lambda n_: {"name": n_.id, "args": e.args, "keywords": e.keywords}
+                sites.append({"node": e, "test": t, "fast": arm(a), "general": arm(b)})
+            elif _evaluator_name(e.func):
+                g = [(t, pol, node) for t, pol, node in guards if any(isinstance(x, ast.Attribute) and "cubic_uniform" in x.attr
+                                                                      for x in ast.walk(t)) or isinstance(t, ast.Constant)]
+                if not g:
+                    g = [x for x in guards if not (isinstance(x[0], ast.Call) and src(x[0].func) in ("hasattr", "isinstance"))][-1:]
+                if not g:
+                    loose.append((e, f"`{e.func.id}` is called without any test of the family of the basis"))
+                    continue
+                t, pol, node = g[-1]
+                tgt = src(st.targets[0]) if isinstance(st, ast.Assign) else ("return" if isinstance(st, ast.Return) else None)
+                by_if.setdefault(id(node), {"node": node, "test": t, True: [], False: []})[pol].append((e, tgt))
+    for d in by_if.values():
+        t, sw = _polarity(d["test"])
+        fa, ge = (d[True], d[False]) if not sw else (d[False], d[True])
+        if len(fa) == 1 and len(ge) == 1:
+            arm = lambda c: {"name": c.func.id, "args": c.args, "keywords": c.keywords}
+            sites.append({"node": d["node"], "test": t, "fast": arm(fa[0][0]), "general": arm(ge[0][0]), "targets": (fa[0][1], ge[0][1])})
+        elif not fa or not ge:
+            c = (fa or ge)[0][0]
+            loose.append((c, f"`{c.func.id}` is the only evaluator selected by `{src(d['test'])}`: the other family has no routine on the other arm"))
+        else:
+            loose.append((d["node"], f"{len(fa)} / {len(ge)} evaluator calls on the two arms of `{src(d['test'])}`"))
+    return sites, loose
+
+
 def dispatch_and_wrap(chk):
     smod = chk.mod(U.SPLINES)
     cu, nu = chk.mod(U.CU), chk.mod(U.NU)
@@ -265,73 +1017,185 @@ def dispatch_and_wrap(chk):
     for m in (cu, nu):
         for q, f in m.functions().items():
             sigs[q] = agree.signature(f)
-    n = 0
-    COERCIONS = ("np.asarray", "np.atleast_1d", "np.array", "float", "np.float64", "np.ascontiguousarray")
     for q in ("Spline1D.eval", "Spline1D.eval_vector", "Spline2D.eval", "Spline2D.eval_vector"):
         fn = smod.func(q)
         chk.functions.add(f"{U.SPLINES}:{q}")
+        cls_name, meth = q.split(".")
+        sp_ = Specialiser(smod, cls_name)
+        body = sp_.run(meth)
         # the evaluation points reach the kernels as given: the spline is evaluated AT x, on the closed domain
         pts = [a.arg for a in fn.args.args if a.arg in ("x", "x1", "x2")]
-        moved = [n_ for n_ in ast.walk(fn) if isinstance(n_, (ast.Assign, ast.AugAssign)) and
-                 any(isinstance(t_, ast.Name) and t_.id in pts for t_ in (n_.targets if isinstance(n_, ast.Assign) else [n_.target]))
-                 and not (isinstance(n_, ast.Assign) and isinstance(n_.value, ast.Call) and src(n_.value.func) in COERCIONS)]
-        chk.ob("E2-evaluation-point", moved[0] if moved else fn, f"{q}: evaluation points {pts} are not replaced", not moved,
+        flow = PointFlow(pts, smod)
+        moved = None
+        for st, _g in walk_guarded(body):
+            hit = flow.assign(st)
+            if hit is not None and moved is None:
+                moved = (st, hit)
+        chk.ob("E2-evaluation-point", moved[0] if moved else fn, f"{q}: evaluation points {pts} are not replaced",
+               True if not moved else moved[1][0],
                "the points handed to the kernels are the caller's points" if not moved else
-               f"`{src(moved[0])[:70]}` replaces the evaluation point before the kernel is called: the value returned is that of the "
-               "piecewise polynomial at another point (e.g. the right end of a periodic domain folded onto the left end takes the left "
-               "end's value and slope, which differ unless the coefficients happen to be wrapped)", file=U.SPLINES, func=q)
-        for node, ca, cb in agree.dispatch_sites(fn):
-            agree.check_dispatch_site(chk, U.SPLINES, q, node, ca, cb, sigs)
-            n += 1
-            okt = src(node.test) in ("self._basis.cubic_uniform", "self._basis1.cubic_uniform")
-            chk.ob("E1-dispatch-test", node, src(node.test), okt, "the fast path is taken iff the spline's own basis is cubic uniform"
-                   if okt else "dispatch is not on the spline's own basis", file=U.SPLINES, func=q, nontrivial=False)
-            # arguments come from the spline's own basis/coefficients
-            args = [src(a) for a in ca.args]
-            if q.startswith("Spline1D"):
-                oka = args[1:4] == ["self._basis.knots", "self._basis.degree", "self._coeffs"]
-            else:
-                oka = args[2:7] == ["self._basis1.knots", "self._basis1.degree", "self._basis2.knots", "self._basis2.degree", "self._coeffs"]
-            chk.ob("E2-argument-role", ca, f"{q}: knots/degree/coeffs", oka, "knots, degree and coefficients of this spline, first "
-                   "dimension first" if oka else f"arguments {args}", file=U.SPLINES, func=q)
-    if n < 6:
-        raise AnalysisError(f"C07: only {n} dispatch sites found in splines.py (6 confirmed by reading)")
+               f"`{src(moved[0])[:70]}` replaces the evaluation point before the kernel is called ({moved[1][1]})" + MOVED_WHY,
+               file=U.SPLINES, func=q)
+        sites, loose = find_sites(body)
+        for s_ in sites:
+            check_site(chk, q, smod, s_, sigs, flow, fn)
+        for node, why in loose:
+            unconditional = "without any test" in why or "the only evaluator" in why
+            chk.ob("E1-dispatch", node, f"{q}: {src(node)[:50]}", False if unconditional else None,
+                   why + (": a cubic-uniform basis stores (xmin, xmax, dx, ncells) in place of its knot vector, so the routine of the other "
+                          "family reads that array wrongly" if unconditional else ""), file=U.SPLINES, func=q)
+        if not sites and not loose:
+            chk.ob("E1-dispatch", fn, f"{q}: hand-over to a cu_/nu_ evaluator", None,
+                   "no call of a spline evaluator found in this entry point (own methods written back: " + str(sp_.inlined) + "; not followed: " +
+                   str(sp_.opaque) + ")", file=U.SPLINES, func=q)
     # Spline2D requires both bases of one family
     init2 = smod.func("Spline2D.__init__")
-    ok = "assert basis1.cubic_uniform == basis2.cubic_uniform" in src(init2)
-    chk.ob("E1-dispatch-test", init2, "assert basis1.cubic_uniform == basis2.cubic_uniform", ok,
-           "a 2-D spline dispatches on basis1 only, so both bases must be of the same family" if ok else
-           "2-D splines may mix families although dispatch looks at basis1 only", file=U.SPLINES, func="Spline2D.__init__")
+    fam = [n for n in ast.walk(init2) if isinstance(n, ast.Attribute) and n.attr in ("cubic_uniform", "_cubic_uniform_splines")]
+
+    def both(a, b):
+        return {src(a), src(b)} in ({"basis1.cubic_uniform", "basis2.cubic_uniform"}, {"self._basis1.cubic_uniform", "self._basis2.cubic_uniform"})
+    ok, bad = False, None
+    for n in ast.walk(init2):
+        if isinstance(n, ast.Assert) and isinstance(n.test, ast.Compare) and len(n.test.ops) == 1 and \
+                isinstance(n.test.ops[0], (ast.Eq, ast.Is)) and both(n.test.left, n.test.comparators[0]):
+            ok = True
+        if isinstance(n, ast.If) and isinstance(n.test, ast.Compare) and len(n.test.ops) == 1 and \
+                isinstance(n.test.ops[0], (ast.NotEq, ast.IsNot)) and both(n.test.left, n.test.comparators[0]) and \
+                any(isinstance(x, ast.Raise) for x in n.body):
+            ok = True
+    if not ok and not fam:
+        bad = ("nothing in the constructor compares the families of the two bases: 2-D splines may mix a cubic-uniform and a general "
+               "basis although the evaluation looks at one basis only, and the other dimension is then evaluated by the wrong routine")
+    chk.pat("E1-dispatch-test", init2, "assert basis1.cubic_uniform == basis2.cubic_uniform", ok,
+            "a 2-D spline dispatches on one basis only, so both bases must be of the same family", bad, file=U.SPLINES, func="Spline2D.__init__")
     # collocation matrix: span finder and basis routine of one family on each arm
     imod = chk.mod(U.INTERP)
     cm = imod.func("SplineInterpolator1D.collocation_matrix")
     from ..core import contains as _contains
-    ifs = [x for x in cm.body if isinstance(x, ast.If) and src(x.test) == "cubic_uniform_splines"]
+    fam_formal = cm.args.args[-1].arg if cm.args.args else "cubic_uniform_splines"
+    ifs = [x for x in ast.walk(cm) if isinstance(x, ast.If) and src(_polarity(x.test)[0]) in ("cubic_uniform_splines", fam_formal)]
     ok, bad = None, None
     if len(ifs) == 1:
-        arm_cu = _contains(ifs[0].body, "xmin, xmax, dx, f_ncells = knots\nncells = int(f_ncells)") and \
-            _contains(ifs[0].body, "span, offset = cu_find_span(xmin, xmax, dx, x, ncells)\ncu_basis_funs(span, offset, basis)")
-        arm_nu = _contains(ifs[0].orelse, "span = nu_find_span(knots, degree, x)\nnu_basis_funs(knots, degree, x, span, basis)")
-        mixed = [c for c, arm in ((c, "cu") for st in ifs[0].body for c in ast.walk(st)) if isinstance(c, ast.Call)
-                 and isinstance(c.func, ast.Name) and c.func.id.startswith("nu_")] + \
-                [c for st in ifs[0].orelse for c in ast.walk(st) if isinstance(c, ast.Call) and isinstance(c.func, ast.Name)
-                 and c.func.id.startswith("cu_")]
+        t, sw = _polarity(ifs[0].test)
+        arm_f, arm_g = (ifs[0].body, ifs[0].orelse) if not sw else (ifs[0].orelse, ifs[0].body)
+
+        def fam_calls(arm, pre):
+            return [c for st in arm for c in ast.walk(st) if isinstance(c, ast.Call) and isinstance(c.func, ast.Name) and c.func.id.startswith(pre)]
+        mixed = fam_calls(arm_f, "nu_") + fam_calls(arm_g, "cu_")
+        arm_cu = _contains(arm_f, "span, offset = cu_find_span(xmin, xmax, dx, x, ncells)\ncu_basis_funs(span, offset, basis)")
+        unpack = _contains(arm_f, "xmin, xmax, dx, f_ncells = knots\nncells = int(f_ncells)") or \
+            _contains(arm_f, "xmin, xmax, dx, ncells = knots") or _contains(cm, "xmin, xmax, dx, f_ncells = knots\nncells = int(f_ncells)")
+        arm_nu = _contains(arm_g, "span = nu_find_span(knots, degree, x)\nnu_basis_funs(knots, degree, x, span, basis)")
         if mixed:
-            ok, bad = False, f"`{src(mixed[0])[:60]}` is a routine of the other family on this arm of the dispatch"
-        elif arm_cu and arm_nu:
+            ok, bad = False, (f"`{src(mixed[0])[:60]}` is a routine of the other family on this arm of the dispatch: the knot array of a "
+                              "cubic-uniform basis is (xmin, xmax, dx, ncells), the matrix rows are not the basis values")
+        elif arm_cu and arm_nu and unpack:
             ok = True
+        else:
+            # same routines, other arguments: a recognised wrong form
+            for arm, pre in ((arm_f, "cu_"), (arm_g, "nu_")):
+                names = [c.func.id for c in fam_calls(arm, pre)]
+                if not any("find_span" in n_ for n_ in names) or not any("basis_funs" in n_ for n_ in names):
+                    bad = f"the {pre} arm does not call both the span search and the basis routine of its family ({names}): not followed"
     chk.ob("E1-dispatch", ifs[0] if ifs else cm, "collocation_matrix: cu_/nu_ span + basis", ok,
            "each arm fills row i with the basis values of its own family" if ok else
            (bad or "collocation matrix arms not recognised"), file=U.INTERP,
            func="SplineInterpolator1D.collocation_matrix")
-    # periodic wrap of unit coefficient vectors
+    periodic_unit_vector(chk, smod)
+
+
+def names_in_expr(e):
+    return {n.id for n in ast.walk(e) if isinstance(n, ast.Name)}
+
+
+def _int_attr(e, table):
+    """sympy value of an integer expression over attribute references listed in `table` (canonical source -> symbol)"""
+    s_ = src(e)
+    if s_ in table:
+        return table[s_]
+    if isinstance(e, ast.Constant) and isinstance(e.value, int) and not isinstance(e.value, bool):
+        return Integer(e.value)
+    if isinstance(e, ast.BinOp) and isinstance(e.op, (ast.Add, ast.Sub, ast.Mult)):
+        a, b = _int_attr(e.left, table), _int_attr(e.right, table)
+        if a is None or b is None:
+            return None
+        return a + b if isinstance(e.op, ast.Add) else a - b if isinstance(e.op, ast.Sub) else a * b
+    if isinstance(e, ast.UnaryOp) and isinstance(e.op, ast.USub):
+        a = _int_attr(e.operand, table)
+        return None if a is None else -a
+    return None
+
+
+def periodic_unit_vector(chk, smod):
+    """BSplines.__getitem__: basis function i of a periodic space carries its wrapped copy"""
     gi = smod.func("BSplines.__getitem__")
-    t = src(gi).replace(" ", "").replace("\n", ";")
-    ok = "spl.coeffs[i]=1.0" in t and "ifspl.basis.periodic:" in t and "n=spl.basis.ncells" in t and "p=spl.basis.degree" in t and \
-        "spl.coeffs[n:n+p]=spl.coeffs[0:p]" in t
-    chk.ob("E5-periodic-wrap", gi, "coeffs[n:n+p] = coeffs[0:p]", ok, "basis function i of a periodic space carries its wrapped copy "
-           "(first p coefficients repeated after the n-th)" if ok else "periodic wrap of the unit coefficient vector changed",
-           file=U.SPLINES, func="BSplines.__getitem__")
+    body = Specialiser(smod, "BSplines").run("__getitem__")
+    n, p = Symbol("n", integer=True, positive=True), Symbol("p", integer=True, positive=True)
+    table = {}
+    # the local that holds the new spline
+    made = [st.targets[0].id for st, _g in walk_guarded(body) if isinstance(st, ast.Assign) and isinstance(st.targets[0], ast.Name) and
+            isinstance(st.value, ast.Call) and src(st.value.func) == "Spline1D" and st.value.args and src(st.value.args[0]) == "self"]
+    S = made[0] if len(made) == 1 else "spl"
+    COEF = (f"{S}.coeffs", f"{S}._coeffs")
+    for recv in (f"{S}.basis", "self", f"{S}._basis"):
+        for a in ("ncells", "nbasis", "_ncells", "_nbasis"):
+            table[f"{recv}.{a}"] = n                 # on a periodic space nbasis == ncells
+        for a in ("degree", "_degree"):
+            table[f"{recv}.{a}"] = p
+    # locals bound to integers of the space
+    ints = {}
+    for st, _g in walk_guarded(body):
+        if isinstance(st, ast.Assign) and len(st.targets) == 1 and isinstance(st.targets[0], ast.Name):
+            v = _int_attr(st.value, {**table, **ints})
+            if v is not None:
+                ints[st.targets[0].id] = v
+    table = {**table, **ints}
+    unit = [st for st, _g in walk_guarded(body) if isinstance(st, ast.Assign) and isinstance(st.targets[0], ast.Subscript)
+            and src(st.targets[0].slice) == "i" and src(st.targets[0].value) in COEF
+            and isinstance(st.value, ast.Constant) and st.value.value == 1]
+    wraps = []
+    for st, guards in walk_guarded(body):
+        if isinstance(st, ast.Assign) and isinstance(st.targets[0], ast.Subscript) and isinstance(st.targets[0].slice, ast.Slice) and \
+                isinstance(st.value, ast.Subscript) and isinstance(st.value.slice, ast.Slice) and \
+                src(st.targets[0].value) == src(st.value.value) and src(st.value.value) in COEF:
+            wraps.append((st, guards))
+    ok, bad = False, None
+    if not unit:
+        bad = None
+    elif not wraps:
+        other = [st for st, _g in walk_guarded(body) if st not in unit and isinstance(st, (ast.Assign, ast.AugAssign)) and
+                 any(isinstance(t, ast.Subscript) and src(t.value) in COEF
+                     for t in (st.targets if isinstance(st, ast.Assign) else [st.target]))]
+        calls = [c for st, _g in walk_guarded(body) for c in own_exprs(st) if isinstance(c, ast.Call) and S in names_in_expr(c) and
+                 not (isinstance(st, ast.Assign) and src(st.targets[0]) == S)]
+        if not other and not calls:
+            bad = ("the unit coefficient vector of a periodic space is returned without its wrapped copy (nothing else is stored into the "
+                   "coefficients): basis function i < degree is evaluated without its part at the end of the period")
+    else:
+        st, guards = wraps[0]
+        PER = (f"{S}.basis.periodic", "self.periodic", "self._periodic", f"{S}._basis.periodic")
+        per = [pol != _polarity(t)[1] for t, pol, _n in guards if src(_polarity(t)[0]) in PER]
+        vague = [t for t, pol, _n in guards if src(_polarity(t)[0]) not in PER and "periodic" in src(t)]
+        tl, th = st.targets[0].slice.lower, st.targets[0].slice.upper
+        vl, vh = st.value.slice.lower, st.value.slice.upper
+        def ev(e, dflt):
+            v = dflt if e is None else _int_attr(e, table)
+            return v + n + p if v is not None and v.is_negative else v      # a negative bound counts from the end (length n + p)
+        a, b, c, d = ev(tl, Integer(0)), ev(th, n + p), ev(vl, Integer(0)), ev(vh, n + p)
+        if None in (a, b, c, d):
+            bad = None
+        elif vague:
+            bad = None
+        elif per != [True]:
+            bad = (f"`{src(st)}` is not applied exactly when the space is periodic (guards: {[src(t) for t, _p, _n in guards]}): on a clamped "
+                   "space it overwrites the last p coefficients with the first p, so the spline returned is not basis function i")
+        elif sp.expand(a - n) == 0 and sp.expand(b - n - p) == 0 and sp.expand(c) == 0 and sp.expand(d - p) == 0:
+            ok = True
+        else:
+            bad = (f"`{src(st)}` copies entries [{c}, {d}) onto [{a}, {b}) (n = number of cells, p = degree): the wrapped copy of a periodic "
+                   "basis function is the first p coefficients repeated after the n-th, so this spline is not basis function i")
+    chk.pat("E5-periodic-wrap", wraps[0][0] if wraps else gi, "coeffs[n:n+p] = coeffs[0:p]", ok, "basis function i of a periodic space carries "
+            "its wrapped copy (first p coefficients repeated after the n-th)", bad, file=U.SPLINES, func="BSplines.__getitem__")
 
 
 def no_coeff_mutation(chk):
@@ -369,4 +1233,5 @@ def run(chk):
     no_coeff_mutation(chk)
     chk.floor("E4-evaluator", 28)
     chk.floor("F8-", 14)
-    chk.floor("E1-dispatch", 7)
+    chk.floor("E1-dispatch", 5)
+    chk.floor("E2-", 6)
